@@ -21,7 +21,7 @@ type argCase struct {
 
 func fieldKind(f string) string {
 	switch f {
-	case "K", "A", "E", "PX", "V":
+	case "K", "A", "E", "PX", "V", "O":
 		return "int"
 	case "U":
 		return "uint"
